@@ -17,6 +17,10 @@ HEADER = "From Coq Require Import List ZArith Bool.\nImport ListNotations.\nFrom
 
 
 # ------------------------------------------------------------ implementation
+NONE_CODE = -999   # a task whose Python result is None (falsy results must be delivered too)
+ZERO_LIKE = (0, -999)
+
+
 def run_impl(case, rng_seed):
     """Drive the real _generic_pmap; choose decisions online (recorded)."""
     import concurrent.futures
@@ -61,6 +65,7 @@ def run_impl(case, rng_seed):
     def fire(j):
         if j in futures and j not in completed and futures[j].cb is not None:
             completed.add(j)
+            state["cur"] = j
             futures[j].cb(futures[j])
             o = outs[j]
             if (o[0] == "err" and case["fail_fast"]) or \
@@ -150,10 +155,15 @@ def run_impl(case, rng_seed):
 
     def task(k):
         o = outs[k]
+        if case["reducer"] and o[1] == NONE_CODE:
+            return None                      # a task run for its side effect
+        if case["reducer"] and o[1] == 0:
+            return 0                         # a falsy result that is not None
         return (k, o[1]) if case["reducer"] else o[1]
 
     def reducer(res):
-        k, v = res
+        k = state["cur"]
+        v = NONE_CODE if res is None else (0 if isinstance(res, int) else res[1])
         rlog.append((k, v))
         return 0 if outs[k][2] else (None if v % 2 else 5)
 
@@ -190,6 +200,7 @@ def run_serial_impl(case):
     outs = case["outs"]
     n = len(outs)
     rlog = []
+    cur = {"k": None}
     calls = {"n": 0}
     expire_at = case["expire_at"]
 
@@ -210,10 +221,16 @@ def run_serial_impl(case):
         o = outs[k]
         if o[0] == "err":
             raise Err(o[1])
+        cur["k"] = k
+        if case["reducer"] and o[1] == NONE_CODE:
+            return None
+        if case["reducer"] and o[1] == 0:
+            return 0
         return (k, o[1]) if case["reducer"] else o[1]
 
     def reducer(res):
-        k, v = res
+        k = cur["k"]
+        v = NONE_CODE if res is None else (0 if isinstance(res, int) else res[1])
         rlog.append((k, v))
         return 0 if outs[k][2] else (None if v % 2 else 5)
 
@@ -290,8 +307,13 @@ def gen_case(rng):
             outs.append(("err", rng.randrange(1, 50)))
         else:
             outs.append(("val", rng.randrange(-20, 100), rng.random() < pstop))
+    red = rng.random() < 0.6
+    if red:
+        # results that are falsy in Python (None, 0) must be delivered like any other
+        outs = [(o[0], rng.choice(ZERO_LIKE), o[2]) if (o[0] == "val" and rng.random() < 0.2) else o
+                for o in outs]
     return {"outs": outs, "workers": W, "fail_fast": rng.random() < 0.5,
-            "reducer": rng.random() < 0.6,
+            "reducer": red,
             "style": rng.choice(["lazy", "eager", "mixed", "mixed", "timeout"]),
             "kill_at_shutdown": rng.random() < 0.3,
             "expired0": rng.random() < 0.04}
